@@ -1544,14 +1544,14 @@ ParCSRMatrix* direct_interpolation(ParCSRMatrix* A,
     int on_proc_cols = 0;
     for (int i = 0; i < S->on_proc_num_cols; i++)
     {
-        if (states[i])
+        if (states[i] == Selected)
         {
             on_proc_cols++;
         }
     }
     for (int i = 0; i < S->off_proc_num_cols; i++)
     {
-        if (off_proc_states[i])
+        if (off_proc_states[i] == Selected)
         {
             off_proc_cols++;
         }
@@ -1563,7 +1563,7 @@ ParCSRMatrix* direct_interpolation(ParCSRMatrix* A,
 
     for (int i = 0; i < S->on_proc_num_cols; i++)
     {
-        if (states[i])
+        if (states[i] == Selected)
         {
             on_proc_col_to_new[i] = P->on_proc_column_map.size();
             P->on_proc_column_map.push_back(S->on_proc_column_map[i]);
